@@ -7,7 +7,8 @@ working tree of /repo to a scratch directory outside /repo and /verif, apply the
 status 1 with a VIOLATION line.  The scratch copy is removed afterwards.  Results are written to
 selftest/RESULTS.md.
 
-usage: selftest/run.py [--tier quick|thorough] [--only SUBSTR] [--jobs N]
+usage: selftest/run.py [--tier quick|thorough] [--only SUBSTR] [--jobs N] [--missing [--older-than COMMIT]]
+Verdicts are kept in selftest/results.json and merged over runs; selftest/RESULTS.md is rendered from it.
 """
 import argparse
 import glob
@@ -61,29 +62,87 @@ def run_one(prop, name, patch, tier):
         shutil.rmtree(scr, ignore_errors=True)
 
 
+STATE = os.path.join(HERE, "results.json")
+
+
+def _head(path):
+    try:
+        return subprocess.run(["git", "-C", path, "log", "-1", "--format=%h"], stdout=subprocess.PIPE).stdout.decode().strip()
+    except Exception:
+        return "?"
+
+
+def load_state():
+    try:
+        with open(STATE) as f:
+            return json.load(f)
+    except (OSError, ValueError):
+        return {"rows": {}}
+
+
+def save_state(state, tier):
+    """results.json holds the last verdict of every entry, with the commits of /verif and /repo it was obtained on; RESULTS.md is rendered from
+    it, so a partial run (--only) updates its rows and leaves the others as they were."""
+    wanted = set("%s|%s" % (name, prop) for prop, name, _p, _k in patches())
+    state["rows"] = dict((k, v) for k, v in state["rows"].items() if k in wanted)
+    with open(STATE, "w") as f:
+        json.dump(state, f, indent=1, sort_keys=True)
+    with open(os.path.join(HERE, "RESULTS.md"), "w") as f:
+        f.write("# Self-test: deliberate breakage vs. checks (tier %s)\n\n" % tier)
+        f.write("One row per deliberately broken copy of /repo (own patches under selftest/patches, changes from independent sub-agents under seeded/). "
+                "Rows are merged over runs: the last two columns say on which commit of /verif (checks) and of /repo the verdict was obtained.\n\n")
+        rows = [state["rows"][k] for k in sorted(state["rows"])]
+        n_ok = len([r for r in rows if r["verdict"] == "CAUGHT" or r["verdict"].startswith("SILENT-AS-EXPECTED")])
+        f.write("%d entries, %d as expected, %d known patches without a verdict yet.\n\n" % (len(rows), n_ok, len(wanted) - len(rows)))
+        f.write("| patch | check | verdict | wall s | violation keys | /verif | /repo |\n|---|---|---|---|---|---|---|\n")
+        for r in rows:
+            f.write("| %s | %s | %s | %s | %s | %s | %s |\n" % (r["name"], r["prop"], r["verdict"], r["wall"], ", ".join(r.get("keys", [])), r.get("verif_commit", "?"),
+                                                           r.get("repo_commit", "?")))
+
+
 def main():
     ap = argparse.ArgumentParser()
     ap.add_argument("--tier", default="quick")
     ap.add_argument("--only", default="")
+    ap.add_argument("--jobs", type=int, default=1, help="entries run side by side (each check shards itself over the cores as well)")
+    ap.add_argument("--missing", action="store_true", help="only the entries results.json has no verdict for on the current commit of /verif")
+    ap.add_argument("--older-than", default="", help="with --missing: also redo entries whose verdict was obtained on this /verif commit or before (a commit-ish)")
     args = ap.parse_args()
-    rows = []
+    state = load_state()
+    vh, rh = _head(VERIF), _head("/repo")
+    todo = []
+    stale = set()
+    if args.older_than:
+        out = subprocess.run(["git", "-C", VERIF, "log", "--format=%h", args.older_than], stdout=subprocess.PIPE).stdout.decode().split()
+        stale = set(out)
     for prop, name, patch, kind in patches():
         if args.only and args.only not in name and args.only != prop:
             continue
+        if args.missing:
+            have = state["rows"].get("%s|%s" % (name, prop))
+            if have and have.get("verif_commit") not in stale and (have["verdict"] == "CAUGHT" or have["verdict"].startswith("SILENT")):
+                continue
+        todo.append((prop, name, patch, kind))
+    rows = []
+    import concurrent.futures
+
+    def one(item):
+        prop, name, patch, kind = item
         res = run_one(prop, name, patch, args.tier)
         res["kind"] = kind
         if kind == "seeded-neutralised":
             res["verdict"] = {"MISSED": "SILENT-AS-EXPECTED (change made harmless by a later repair)", "CAUGHT": "ALARM-ON-HARMLESS-CHANGE"}.get(res["verdict"], res["verdict"])
-        rows.append(res)
-        print("%-12s %-60s %-7s %5.1fs %s" % (res["verdict"], name, prop, res["wall"], ",".join(res.get("keys", []))[:120]), flush=True)
-        if res.get("tail"):
-            print("      " + res["tail"].replace("\n", "\n      "))
-    if not args.only:
-        with open(os.path.join(HERE, "RESULTS.md"), "w") as f:
-            f.write("# Self-test: deliberate breakage vs. checks (tier %s)\n\n" % args.tier)
-            f.write("| patch | check | verdict | wall s | violation keys |\n|---|---|---|---|---|\n")
-            for r in rows:
-                f.write("| %s | %s | %s | %s | %s |\n" % (r["name"], r["prop"], r["verdict"], r["wall"], ", ".join(r.get("keys", []))))
+        res["verif_commit"], res["repo_commit"] = vh, rh
+        return res
+    with concurrent.futures.ThreadPoolExecutor(max_workers=max(1, args.jobs)) as ex:
+        for res in ex.map(one, todo):
+            rows.append(res)
+            print("%-12s %-60s %-7s %5.1fs %s" % (res["verdict"], res["name"], res["prop"], res["wall"], ",".join(res.get("keys", []))[:120]), flush=True)
+            if res.get("tail"):
+                print("      " + res["tail"].replace("\n", "\n      "))
+            state["rows"]["%s|%s" % (res["name"], res["prop"])] = dict((k, v) for k, v in res.items() if k != "tail")
+            save_state(state, args.tier)
+    save_state(state, args.tier)
     return 0 if all(r["verdict"] == "CAUGHT" or r["verdict"].startswith("SILENT-AS-EXPECTED") for r in rows) else 1
 
 
